@@ -860,6 +860,77 @@ impl CaseEngine for C30 {
             return;
         };
         rep.max("max_virtual_ms_to_stable_leader", t_elect as i64);
+        // phase 1b: what is in the stable leader's log (entries appended at some leader during the prefix) becomes
+        // committed on every node within H, without any further append
+        if let Some(l) = stable_leader(&sim) {
+            let wanted: Vec<(u64, u64, u64)> = sim.nodes[l].storage.logs.iter().map(|e| (e.index, e.term, e.data)).collect();
+            let everywhere = |sim: &Sim| {
+                wanted.iter().all(|(i, t, d)| sim.nodes.iter().all(|nd| nd.storage.logs.iter().any(|e| e.index == *i && e.term == *t && e.data == *d && e.committed)))
+            };
+            if !wanted.is_empty() {
+                rep.count("schedules_with_entries_in_the_new_leaders_log");
+                let t1 = vclock::now();
+                let mut ok = everywhere(&sim);
+                while !ok && vclock::now() < t1 + h && stable_leader(&sim) == Some(l) {
+                    let until = vclock::now() + 50;
+                    healthy_phase(&mut sim, &mut rng, until, &mut pending, max_delay, |_, _| {});
+                    ok = everywhere(&sim);
+                }
+                if ok {
+                    rep.count("leaders_log_committed_everywhere_without_further_appends");
+                } else if stable_leader(&sim) == Some(l) {
+                    let mut lacks = false;
+                    let mut other = false;
+                    let mut uncommitted_only = false;
+                    for (i, t, d) in &wanted {
+                        for nd in &sim.nodes {
+                            let same = nd.storage.logs.iter().find(|e| e.index == *i && e.term == *t && e.data == *d);
+                            match same {
+                                Some(e) if e.committed => {}
+                                Some(_) => uncommitted_only = true,
+                                None => {
+                                    if nd.storage.logs.iter().any(|e| e.index == *i && e.committed) {
+                                        other = true;
+                                    } else {
+                                        lacks = true;
+                                    }
+                                }
+                            }
+                        }
+                    }
+                    let leader_uncommitted = wanted.iter().any(|(i, t, d)| !sim.nodes[l].storage.logs.iter().any(|e| e.index == *i && e.term == *t && e.data == *d && e.committed));
+                    // a stalled follower whose last append batch (answered with LogMismatch) started at or below its own
+                    // commit index although that index is below the leader's log length: the leader re-sends entries
+                    // the follower has committed
+                    let leader_log_len = sim.nodes[l].storage.logs.len() as u64;
+                    let resends_committed = (0..sim.n()).filter(|i| *i != l).any(|i| {
+                        let behind = wanted.iter().any(|(ix, t, d)| !sim.nodes[i].storage.logs.iter().any(|e| e.index == *ix && e.term == *t && e.data == *d && e.committed));
+                        behind && matches!(sim.last_append.get(&(i as u64)), Some((first, commit, "log_mismatch")) if *first <= *commit && *commit > 0 && *commit < leader_log_len)
+                    });
+                    let class = if other {
+                        "some_node_committed_a_different_entry_at_that_index"
+                    } else if resends_committed {
+                        "leader_resends_entries_the_follower_has_committed"
+                    } else if lacks {
+                        "some_node_lacks_the_entry"
+                    } else if uncommitted_only && leader_uncommitted {
+                        // every node holds the entry, all messages are delivered, and not even the leader commits it
+                        "entry_is_on_every_node_but_the_leader_never_commits_it"
+                    } else if uncommitted_only {
+                        "entry_is_on_every_node_but_a_follower_never_commits_it"
+                    } else {
+                        "unclassified"
+                    };
+                    rep.violation(
+                        &format!("C30:entry_in_the_stable_leaders_log_not_committed_everywhere_within_bound:{class}"),
+                        &format!("{n} nodes, leader {l}: after {h} virtual ms of fault-free operation without further appends; leader log {wanted:?}; states {:?}; logs {:?}", sim.probes(),
+                            sim.nodes.iter().map(|nd| nd.storage.logs.iter().map(|e| (e.index, e.term, e.data, e.committed)).collect::<Vec<_>>()).collect::<Vec<_>>()),
+                        ctx(&sim),
+                    );
+                    return;
+                }
+            }
+        }
         // phase 2: entries appended at the leader are committed everywhere within H
         let k = 1 + rng.usize(4);
         let mut appended: Vec<(u64, u64)> = vec![];
